@@ -146,8 +146,9 @@ macro_rules! expire_requests {
         }
     };
 }
-// Only FUTURE client timestamps are decided (no panic, request kept): instances in which the request can expire build a
+// NOT REGISTERED (prefix c26_x_): even the future-timestamp instances (no panic, request kept) are unreliable: 888 s once without a
+// memory cap, out of memory / solver errors at 14 and 30 GB. Instances in which the request can expire build a
 // ServiceFault / SupportedMessage and move it through two VecDeques, which exhausted 20 GB (measured, same-day instance
 // with concrete timeouts). The "BadTimeout only after the timeout" half is therefore outside the claim.
-expire_requests!(c26_t_expire_ts_tomorrow, 2024, 3, 11, 1i64, 0);
-expire_requests!(c26_t_expire_ts_endtimes, 9999, 12, 31, 2_913_104i64, 0);
+expire_requests!(c26_x_expire_ts_tomorrow, 2024, 3, 11, 1i64, 0);
+expire_requests!(c26_x_expire_ts_endtimes, 9999, 12, 31, 2_913_104i64, 0);
